@@ -15,10 +15,19 @@ def unraw(ident: str) -> str:
     return ident[2:] if ident.startswith("r#") else ident
 
 
-def rust_str(s) -> str:
-    """A Rust string literal for the given text (str or bytes that are valid UTF-8)."""
+def rust_str(s, style=None) -> str:
+    """A Rust string literal for the given text (str or bytes that are valid UTF-8).
+    style: None (plain, escapes only where needed) | "uesc" (every character as \\u{..}: a LONG source spelling of a short value) |
+    "raw" (r##".."##: quotes and backslashes unescaped, a source spelling shorter than the escaped one)"""
     if isinstance(s, bytes):
         s = s.decode("utf-8")
+    if style == "uesc":
+        return '"' + "".join("\\u{%x}" % ord(ch) for ch in s) + '"'
+    if style == "raw" and "\r" not in s:
+        n = 1
+        while ('"' + "#" * n) in s:
+            n += 1
+        return "r" + "#" * n + '"' + s + '"' + "#" * n
     out = ['"']
     for ch in s:
         o = ord(ch)
@@ -49,6 +58,7 @@ class VM:
     b: Optional[bool] = None       # aci value
     explicit: bool = True          # aci written as `ascii_case_insensitive = true` (vs bare keyword)
     props: Optional[list] = None   # [(key, ('s', str) | ('i', int) | ('b', bool) | ('other', src))]
+    style: Optional[str] = None    # how the literal is WRITTEN in the Rust source (rust_str): None | "uesc" | "raw"; invisible to the model
 
     def sexp(self) -> str:
         k = self.kind
@@ -80,7 +90,7 @@ class VM:
         names = {"ser": "serialize", "tos": "to_string", "msg": "message", "det": "detailed_message",
                  "dw": "default_with"}
         if k in names:
-            return "%s = %s" % (names[k], rust_str(self.s))
+            return "%s = %s" % (names[k], rust_str(self.s, self.style))
         if k in ("transparent", "disabled", "default"):
             return k
         if k == "aci":
